@@ -97,6 +97,65 @@ func c25Gen(r *core.Rand, tier string) any {
 	}
 	g := cdcNewGenState(r)
 	if !sc.NoFault && r.Bool(0.25) {
+		// directed stratum "return": the leader L is retrying a batch against a dead
+		// endpoint when it loses leadership (the process lives on); the endpoint comes
+		// back, the new leader delivers that batch and its high-watermark broadcast
+		// reaches L; leadership returns to L; more writes. L's leader loop must pick
+		// up where the cluster is, not where it stopped.
+		sc.Knobs.SnapshotThreshold = 0 // no log truncation: nobody is restored from a snapshot here
+		sc.Knobs.SnapshotInterval = 0
+		add := func(op c25Op) { op.Gap = r.Intn(8); sc.Ops = append(sc.Ops, op) }
+		plain := func(lo, hi int) { // single-statement requests: one commit per log entry
+			for i := r.Range(lo, hi); i > 0; i-- {
+				var st cdcStmt
+				for {
+					st = g.stmt()
+					if strings.HasPrefix(st.Q, "INSERT INTO") && !strings.Contains(st.Q, "), (") {
+						break // a one-row INSERT always changes a row and cannot fail half-way
+					}
+				}
+				add(c25Op{K: "req", Client: r.Intn(2), Node: r.Intn(4), Stmts: []cdcStmt{st}})
+			}
+		}
+		mixed := func(lo, hi int) {
+			for i := r.Range(lo, hi); i > 0; i-- {
+				st, tx := g.request()
+				add(c25Op{K: "req", Client: r.Intn(2), Node: r.Intn(4), Tx: tx, Stmts: st})
+			}
+		}
+		wait := func(lo, hi int) { add(c25Op{K: "run", Ms: r.Range(lo, hi)}) }
+		mixed(0, 2)
+		plain(1, 2)
+		wait(300, 2*sc.HWMMs+500)
+		add(c25Op{K: "mark"}) // remember who leads now
+		add(c25Op{K: "outage", Mode: []string{"reject", "reject", "acklost"}[r.Intn(3)]})
+		plain(1, 2)
+		wait(sc.BatchDelay+50, sc.BatchDelay+3*sc.BackoffMs+200) // the leader is retrying now
+		cut := r.Bool(0.4)
+		if cut {
+			add(c25Op{K: "isolate", Node: 0})
+			wait(2000, 4500) // lease expires, somebody else is elected
+		} else {
+			add(c25Op{K: "stepdown"})
+			wait(300, 1500)
+		}
+		if r.Bool(0.3) {
+			plain(1, 1)
+		}
+		add(c25Op{K: "restore"})
+		if cut {
+			wait(200, 1500)
+			add(c25Op{K: "heal"})
+		}
+		wait(2*sc.HWMMs+2200, 2*sc.HWMMs+5000) // delivery by the new leader + its broadcast
+		add(c25Op{K: "stepdown", Node: -2})    // leadership back to the marked node
+		wait(800, 2500)
+		plain(2, 4)
+		mixed(0, 2)
+		wait(500, 2000)
+		return sc
+	}
+	if !sc.NoFault && r.Bool(0.25) {
 		// directed stratum: a follower falls behind while the endpoint is down, is
 		// caught up by a snapshot install after the leader truncated its log, and
 		// then takes over leadership.
@@ -366,7 +425,36 @@ func c25Run(c *core.Ctx, raw json.RawMessage) {
 	applied := map[uint64]string{}
 	appliedBy := map[uint64]map[string]bool{} // index -> nodes that applied it from their log
 	conflict := ""
-	verifx.InstallHooks(nil, nil, func(point string, v int64) {
+	// A leader loop that goes round without ever blocking would freeze the
+	// bubble (one P, no preemption). The yield point at the top of the loop lets
+	// the harness notice that (thousands of iterations at one simulated instant)
+	// and make every further such iteration cost simulated time instead, which is
+	// what a busy loop does in reality; the loop keeps its own behaviour (it still
+	// reacts to stop), and whatever it fails to deliver is the oracle's business.
+	var ymu sync.Mutex
+	var yLast time.Time
+	yCount, spinning := 0, false
+	yield := func(point string) {
+		if point != "cdc.leader.loop" {
+			return
+		}
+		now := time.Now()
+		ymu.Lock()
+		if now.Equal(yLast) {
+			yCount++
+		} else {
+			yLast, yCount = now, 0
+		}
+		slow := yCount > 2000 || (spinning && yCount > 0)
+		if yCount > 2000 {
+			spinning = true
+		}
+		ymu.Unlock()
+		if slow {
+			time.Sleep(20 * time.Millisecond)
+		}
+	}
+	verifx.InstallHooks(nil, yield, func(point string, v int64) {
 		if !strings.HasPrefix(point, "store.fsm.apply ") {
 			return
 		}
@@ -519,7 +607,7 @@ func c25Run(c *core.Ctx, raw json.RawMessage) {
 	}
 
 	busy := map[int]*sim.Task{}
-	downNode, lastIso := 0, 0
+	downNode, lastIso, marked := 0, 0, 0
 	opTimeout := 8 * time.Second
 	nAcked, nUnknown := 0, 0
 	for _, op := range sc.Ops {
@@ -550,6 +638,11 @@ func c25Run(c *core.Ctx, raw json.RawMessage) {
 					nUnknown++
 				}
 			})
+		case "mark":
+			if l := s.Leader(); l != nil {
+				marked = l.Idx
+				c.Log.Add("%d mark leader n%d", s.StepN, marked)
+			}
 		case "outage":
 			ep.mu.Lock()
 			ep.mode = op.Mode
@@ -566,6 +659,17 @@ func c25Run(c *core.Ctx, raw json.RawMessage) {
 				to := ""
 				if op.Node == -1 && lastIso != 0 && lastIso != l.Idx && s.Nodes[lastIso].Up {
 					to = s.Nodes[lastIso].ID // hand leadership to the node that was cut off
+				}
+				if op.Node == -2 {
+					if marked == 0 || !s.Nodes[marked].Up {
+						continue
+					}
+					if marked == l.Idx {
+						c.Probe("marked_leader_already_back")
+						continue
+					}
+					to = s.Nodes[marked].ID // leadership back to the node that led at "mark"
+					c.Probe("leadership_handed_back")
 				}
 				c.Fault("stepdown")
 				c.Log.Add("%d fault stepdown n%d to %q", s.StepN, l.Idx, to)
@@ -877,6 +981,14 @@ func c25Run(c *core.Ctx, raw json.RawMessage) {
 	c.ProbeN("commit_groups_expected", nGroups)
 	c.ProbeN("multi_commit_entries", nMultiEntries)
 	c.ProbeN("loads_committed", nLoads)
+	ymu.Lock()
+	spun := spinning
+	ymu.Unlock()
+	spinNote := ""
+	if spun {
+		c.Probe("leader_loop_spinning")
+		spinNote = "; a cdc leader loop went round >2000 times at one simulated instant without blocking (busy loop)"
+	}
 	nGap := 0
 	for _, k := range order {
 		if len(appliedBy[k]) < 3 {
@@ -955,7 +1067,7 @@ func c25Run(c *core.Ctx, raw json.RawMessage) {
 			case elsewhere != "":
 				f = finding{"mislabelled-later-commit", fmt.Sprintf("log index %d, %s, changed rows [%s]; they were never delivered under index %d, only as %s", k, pos, cdcIdentsOf(g.Events), k, elsewhere)}
 			case !later:
-				f = finding{"lost-change", fmt.Sprintf("log index %d changed rows [%s]; no delivery contains them (waited %v simulated after the last fault; %d deliveries in total, indices seen: %s)", k, cdcIdentsOf(g.Events), c25Wait, len(recs), c25Indices(seenIdx))}
+				f = finding{"lost-change", fmt.Sprintf("log index %d changed rows [%s]; no delivery contains them (waited %v simulated after the last fault; %d deliveries in total, indices seen: %s)%s", k, cdcIdentsOf(g.Events), c25Wait, len(recs), c25Indices(seenIdx), spinNote)}
 			default:
 				f = finding{"lost-later-commit", fmt.Sprintf("log index %d, %s, changed rows [%s]; no delivery contains them (%d deliveries, indices seen: %s)", k, pos, cdcIdentsOf(g.Events), len(recs), c25Indices(seenIdx))}
 			}
